@@ -33,6 +33,8 @@ def err_site(err):
 def norm_err(err):
     m = re.search(r'(error: .*)', err)
     s = m.group(1) if m else (err.strip().split('\n')[-1] if err.strip() else 'unknown')
+    s = re.sub(r"[‘'][^’']*[’']", 'X', s)
+    s = re.sub(r';.*', '', s)
     s = re.sub(r"[A-Za-z_]*\d\w*", 'X', s)
     return re.sub(r'\s+', '_', s)[:120]
 
@@ -267,7 +269,9 @@ def py_struct(force, members, smax, amax):
     if force is not None:
         if force <= 0 or force > amax or force & (force - 1) or force < al: return None
         al = force
-    return offs, -(-end // al) * al, al
+    size = -(-end // al) * al
+    if size > smax: return None        # the limit covers the trailing padding too (corrected rule, see fixes/C08-struct-size-after-padding)
+    return offs, size, al
 
 
 def py_ids(fields, vt_max):
